@@ -14,7 +14,13 @@ CHECKS = {
             "exactly the rows - values, multiplicity, order - of the direct evaluation of the operation sequence; "
             "never fails; and again from any store left behind by earlier executions. " + CORR,
             "", "DESIGN.md 5/C01"),
-    "C02": (TV, "Lean model + correspondence (proofs in progress)", CORR, "", "DESIGN.md 5/C02"),
+    "C02": (TV, "Lean model of tree building and of the emitted SELECT + correspondence incl. execution of every generated query on SQLite; supporting theorems for the tree-building half",
+            CORR + "Supporting machine-checked theorems (Props/C02.lean, every recursion budget): a unary operation applied "
+            "inside the SQL engine to any raw SQL tree (incl. chains and joins), and conform of one, yield exactly the rows "
+            "(values, multiplicity, order) and columns of direct evaluation - through slot merging, subquery nesting and "
+            "projection push-down into UNION branches; joining two Selects (projections stripped and re-applied, hidden "
+            "columns guarded) yields exactly the join of the visible rows. The emitted SELECT text and its evaluation by the "
+            "database are modelled and validated on SQLite, not proved.", "", "DESIGN.md 5/C02"),
     "C03": (PR, "Lean 4 theorems: backtracking_sound (induction over trees using C04/C05 + locality of widened projections), apply_with_options_sound for every option combination + correspondence",
             "Machine-checked for the unary operation classes between iteration engines, every tree, every option "
             "combination: backtrack_unary returns a well-formed relation that has (done) or yields under the operation "
@@ -57,7 +63,13 @@ CHECKS = {
             "executed trees; each materialization's upstream tree is evaluated at most once (ghost log Nodup); a cached "
             "materialization is handed back with no evaluation. Proof (partial): Processor.process histories and the SQL "
             "engine's payloads are validated by correspondence + oracle, not proved. " + CORR, "", "DESIGN.md 5/C10"),
-    "C11": (TV, "Lean model + correspondence (proofs in progress)", CORR, "", "DESIGN.md 5/C11"),
+    "C11": (TV, "Lean model + correspondence incl. execution on SQLite in both scan orders; supporting theorems for the tree-building half",
+            CORR + "Supporting machine-checked theorems (Props/C11.lean): in the reference semantics (rows are ordered lists) a "
+            "slice applied inside the SQL engine to any raw SQL tree yields exactly rows [start, stop) of the target's rows in "
+            "the target's order, a sort yields them stably sorted (merged with a recorded sort, nested above a recorded slice, "
+            "or wrapped around a UNION); _append_binary_to_select and materialize raise RelationalAlgebraError when an "
+            "operand carries a sort without a slice. That the database honours ORDER BY/OFFSET/LIMIT as modelled is validated "
+            "on SQLite, not proved.", "", "DESIGN.md 5/C11"),
     "C12": (PR, "Lean 4 theorems: iteration callable = direct value; SQL translation = direct value (incl. range arithmetic for all start/stop/step) + correspondence incl. evaluation by SQLite",
             "Machine-checked for all expression/predicate trees over the portable operator set and all NULL-free rows that "
             "have the required columns: the iteration engine's callable yields the direct value and never raises; the SQL "
@@ -73,7 +85,9 @@ CHECKS = {
             CORR + "Supporting machine-checked theorems (Props/C14.lean): _finish_apply preserves well-formedness and engine "
             "consistency; every tree built by an iteration-engine history is WF and engine-consistent; automatic join "
             "resolution yields key columns of both operands; transferred_to never creates a self-transfer; documented no-op "
-            "calls return the relation itself. The SQL engine's tree building is validated, not proved.", "", "DESIGN.md 5/C14"),
+            "calls return the relation itself; inside the SQL engine a unary operation applied to any raw SQL tree, and conform "
+            "of one, return a well-formed relation in the same engine. The join factory path in the SQL engine and "
+            "back-tracking across engines are validated, not proved.", "", "DESIGN.md 5/C14"),
     "C15": (PR, "Lean 4 theorems: Transfer.simplify sound, iteration-engine transfers keep content, materialize of locked adds nothing, back-tracking stops at locked nodes, _finish_apply keeps locked nodes + regenerated is_locked table + correspondence",
             "Machine-checked: whatever Transfer.simplify hands back has the original content, the requested engine and is "
             "reached through transfers/unlocked markers only; transfers between iteration engines (incl. there-and-back) "
